@@ -1,1 +1,187 @@
-//! placeholder
+//! C01 (generated moves = legal moves; check test) and C17 (quiescence move set), rules level.
+//! Sliders are the first-blocker ray walk (kani::stub), justified per square by C10.
+use crate::board::Board;
+use crate::common::*;
+use crate::move_gen::vh;
+use crate::moves::{Move, MoveType};
+use crate::pieces::{Color, Piece};
+use crate::spec::*;
+use crate::sym;
+
+macro_rules! mg_harness {
+    ($name:ident, $unwind:literal, $body:block) => {
+        #[cfg_attr(kani, kani::proof)]
+        #[cfg_attr(kani, kani::unwind($unwind))]
+        #[cfg_attr(kani, kani::stub(crate::magic::Magic::get_rook_attacks, crate::common::stub_rook))]
+        #[cfg_attr(kani, kani::stub(crate::magic::Magic::get_bishop_attacks, crate::common::stub_bishop))]
+        pub fn $name() $body
+    };
+}
+
+macro_rules! mg_filterstub_harness {
+    ($name:ident, $unwind:literal, $body:block) => {
+        #[cfg_attr(kani, kani::proof)]
+        #[cfg_attr(kani, kani::unwind($unwind))]
+        #[cfg_attr(kani, kani::stub(crate::magic::Magic::get_rook_attacks, crate::common::stub_rook))]
+        #[cfg_attr(kani, kani::stub(crate::magic::Magic::get_bishop_attacks, crate::common::stub_bishop))]
+        #[cfg_attr(kani, kani::stub(crate::move_gen::MoveGenerator::is_legal, crate::move_gen::vh::stub_is_legal))]
+        #[cfg_attr(kani, kani::stub(crate::move_gen::MoveGenerator::is_check, crate::move_gen::vh::stub_is_check))]
+        pub fn $name() $body
+    };
+}
+
+// ---------------------------------------------------------------------------------- check test
+// is_in_check agrees with the rules for every valid position (no bound).
+mg_harness!(c01_is_in_check, 9, {
+    let b = any_board();
+    let p = from_board(&b);
+    sym::assume(valid(&p));
+    let mg = mk_movegen();
+    vassert!(mg.is_in_check(&b) == in_check(&p, p.stm), "C01: is_in_check disagrees with the rules");
+    vcover!(in_check(&p, p.stm) && p.stm == 1, "black in check");
+    vcover!(attackers(&p, king_sq(&p, p.stm), 1 - p.stm, occ(&p)).count_ones() == 2, "double check");
+    core::mem::forget(mg);
+});
+
+// ---------------------------------------------------------------------------------- legality filter
+/// move classes of the case split
+pub const CL_QUIET: u8 = 0; pub const CL_CAPTURE: u8 = 1; pub const CL_PROMO: u8 = 2; pub const CL_EP: u8 = 3; pub const CL_CASTLE: u8 = 4; pub const CL_KING: u8 = 5;
+fn in_class(m: &Move, class: u8) -> bool {
+    let king = m.piece_type == Piece::King;
+    match class {
+        CL_QUIET => m.move_type == MoveType::Quiet && !king,
+        CL_CAPTURE => m.move_type == MoveType::Capture && !king,
+        CL_PROMO => m.move_type == MoveType::Promotion,
+        CL_EP => m.move_type == MoveType::EnPassant,
+        CL_CASTLE => m.move_type == MoveType::Castle,
+        _ => king && (m.move_type == MoveType::Quiet || m.move_type == MoveType::Capture),
+    }
+}
+/// The real legality filter (king_square, get_pinned_pieces, attacks_to, is_legal and everything
+/// below it) on EVERY valid position with the mover's king on `ksq`, for every pseudo-legal move
+/// of the class: accepted exactly when the rules allow it.
+pub fn filter_case(white: bool, ksq: u8, class: u8) {
+    let b = any_board();
+    let p = from_board(&b);
+    let us = if white { 0 } else { 1 };
+    sym::assume(p.stm == us && p.pc[K] & p.col[us] == bit(ksq));
+    sym::assume(valid(&p));
+    let m = any_move();
+    sym::assume(in_class(&m, class) && pseudo_legal(&p, &m));
+    let mg = mk_movegen();
+    let got = vh::filter_one(&mg, &b, &m);
+    let want = legal(&p, &m);
+    vassert!(got == want, "C01: legality filter disagrees with the rules (a legal move is dropped or an illegal one kept)");
+    vcover!(want, "legal move of the class");
+    vcover!(!want, "illegal pseudo-legal move of the class");
+    core::mem::forget(mg);
+}
+macro_rules! filter_harness { ($name:ident, $w:literal, $k:literal, $c:literal) => { mg_harness!($name, 17, { filter_case($w, $k, $c); }); }; }
+include!("gen/h_c01_cases.rs");
+
+// ---------------------------------------------------------------------------------- generators + glue
+fn same_move(a: &Move, b: &Move) -> bool { a.from == b.from && a.to == b.to && a.piece_type == b.piece_type && a.move_type == b.move_type }
+/// an arbitrary but fixed predicate on moves (the SALT is symbolic): stands for "the filter accepts m"
+pub static mut SALT: u32 = 0;
+pub fn pred(m: &Move) -> bool {
+    let x = (m.from as u32) * 64 + m.to as u32 + 4096 * (pidx(m.piece_type) as u32) + 32768 * (match m.move_type { MoveType::Quiet => 0, MoveType::Capture => 1, MoveType::EnPassant => 2, MoveType::Castle => 3, MoveType::Promotion => 4 });
+    ((x ^ unsafe { SALT }).wrapping_mul(0x9E37_79B1) >> 13) & 1 == 1
+}
+/// generate_moves end to end with the legality filter replaced by an ARBITRARY predicate (kani::stub of
+/// is_legal; the real filter is decided separately, case by case, by c01_filter_*): the list is exactly
+/// the pseudo-legal moves the predicate accepts - every generator emits all and only the pseudo-legal
+/// moves of its class, nothing twice, retain() applies the filter to each, nothing is appended later -
+/// and the filter is handed the mover's king square, the checkers of that square and the pinned men.
+/// Boards: two kings and up to `extra` further men of any kind, any (consistent) flags.
+pub fn generators_case(extra: usize) {
+    let b = small_board(extra);
+    let p = from_board(&b);
+    sym::assume(valid(&p));
+    unsafe { SALT = sym::u32(); }
+    let mg = mk_movegen();
+    let out = mg.generate_moves(&b);
+    let n = out.len();
+    // under Kani the filter is the arbitrary predicate; in a native replay (no stubs) it is the real filter,
+    // so the same assertions are checked against the rules' legality
+    let accepted = |m: &Move| if sym::native() { legal(&p, m) } else { pred(m) };
+    let i = sym::u8() as usize; let j = sym::u8() as usize;
+    if i < n {
+        vassert!(pseudo_legal(&p, &out[i]), "C01: a generated move is not even pseudo-legal (wrong from/to/kind/type for this position)");
+        vassert!(accepted(&out[i]), "C01: a move rejected by the legality filter stays in the list");
+        if j < n && i != j { vassert!(!same_move(&out[i], &out[j]), "C01: a move is generated twice"); }
+    }
+    let m = any_move();
+    if pseudo_legal(&p, &m) && accepted(&m) {
+        let mut found = false; let mut k = 0;
+        while k < n { if same_move(&out[k], &m) { found = true; } k += 1; }
+        vassert!(found, "C01: a pseudo-legal move accepted by the legality filter is missing from the generated list");
+    }
+    vcover!(n > 12, "more than twelve moves kept");
+    vcover!(i < n && out[i].move_type == MoveType::Promotion && out[i].piece_type == Piece::Knight, "knight promotion generated");
+    core::mem::forget(mg);
+}
+mg_filterstub_harness!(c01_generators_3men, 40, { generators_case(1); });
+mg_filterstub_harness!(c01_generators_4men, 68, { generators_case(2); });
+
+// ---------------------------------------------------------------------------------- C17
+/// For every valid position and every legal move: the engine's quiescence predicate
+/// (is_capture || is_promotion || is_check, with the real clone_with_move / king_square /
+/// attacks_to on the successor) holds exactly for captures (incl. en passant), promotions and
+/// moves after which the opponent's king is attacked (direct, discovered, by castling rook,
+/// by the promoted piece, by en-passant discovery).  One harness per move type.
+pub fn qpred_case(mt: MoveType) {
+    let b = any_board();
+    let p = from_board(&b);
+    sym::assume(valid(&p));
+    let m = any_move_of(mt);
+    sym::assume(legal(&p, &m));
+    let mg = mk_movegen();
+    let got = vh::q_pred(&mg, &b, &m);
+    let n = apply(&p, &m);
+    let gives_check = in_check(&n, 1 - p.stm);
+    let want = m.move_type == MoveType::Capture || m.move_type == MoveType::EnPassant || m.move_type == MoveType::Promotion || gives_check;
+    vassert!(got == want, "C17: quiescence predicate differs from 'captures, promotions and checks'");
+    vcover!(gives_check, "move gives check");
+    vcover!(gives_check && attackers(&n, king_sq(&n, 1 - p.stm), p.stm, occ(&n)) & bit(m.to) == 0, "check not given by the moved piece (discovered / castling rook)");
+    vcover!(!want, "quiet move without check");
+    core::mem::forget(mg);
+}
+mg_harness!(c17_qpred_quiet, 9, { qpred_case(MoveType::Quiet); });
+mg_harness!(c17_qpred_capture, 9, { qpred_case(MoveType::Capture); });
+mg_harness!(c17_qpred_ep, 9, { qpred_case(MoveType::EnPassant); });
+mg_harness!(c17_qpred_castle, 9, { qpred_case(MoveType::Castle); });
+mg_harness!(c17_qpred_promotion, 9, { qpred_case(MoveType::Promotion); });
+
+/// generate_quiescence_moves(b) is exactly the sub-list of generate_moves(b) selected by
+/// is_capture || is_promotion || is_check (is_check replaced by an arbitrary predicate on the move,
+/// the real one is c17_qpred_*; the legality filter by another): nothing added, nothing dropped.
+pub fn qglue_case(extra: usize) {
+    let b = small_board(extra);
+    let p = from_board(&b);
+    sym::assume(valid(&p));
+    unsafe { SALT = sym::u32(); }
+    let mg = mk_movegen();
+    let all = mg.generate_moves(&b);
+    let q = mg.generate_quiescence_moves(&b);
+    let (na, nq) = (all.len(), q.len());
+    let sel = |m: &Move| m.move_type == MoveType::Capture || m.move_type == MoveType::EnPassant || m.move_type == MoveType::Promotion
+        || (if sym::native() { in_check(&apply(&p, m), 1 - p.stm) } else { crate::move_gen::vh::pred_check(m) });
+    vassert!(nq <= na, "C17: quiescence list longer than the legal move list");
+    let i = sym::u8() as usize;
+    if i < nq {
+        vassert!(sel(&q[i]), "C17: quiescence list contains a move that neither captures, promotes nor checks");
+        let mut found = false; let mut k = 0;
+        while k < na { if same_move(&all[k], &q[i]) { found = true; } k += 1; }
+        vassert!(found, "C17: quiescence list contains a move that is not in the legal move list");
+    }
+    let j = sym::u8() as usize;
+    if j < na && sel(&all[j]) {
+        let mut found = false; let mut k = 0;
+        while k < nq { if same_move(&q[k], &all[j]) { found = true; } k += 1; }
+        vassert!(found, "C17: a capturing, promoting or checking legal move is missing from the quiescence list");
+    }
+    vcover!(nq > 0 && nq < na, "some but not all moves are tactical");
+    core::mem::forget(mg);
+}
+mg_filterstub_harness!(c17_qglue_3men, 40, { qglue_case(1); });
+mg_filterstub_harness!(c17_qglue_4men, 68, { qglue_case(2); });
